@@ -443,7 +443,7 @@ impl Property for Ints {
     }
     fn budget(&self, tier: Tier) -> Budget {
         Budget {
-            cases: tier.pick(300_000, 20_000_000),
+            cases: tier.pick(1_500_000, 20_000_000),
             tape_len: 300,
         }
     }
@@ -684,7 +684,7 @@ impl Property for Bools {
     }
     fn budget(&self, tier: Tier) -> Budget {
         Budget {
-            cases: tier.pick(60_000, 3_000_000),
+            cases: tier.pick(300_000, 3_000_000),
             tape_len: 80,
         }
     }
@@ -755,6 +755,10 @@ pub struct PvCase {
     pub values: Vec<(String, Vec<String>)>,
     pub ignore_case: bool,
     pub input: String,
+    /// how the aliases are declared: 0 = one `alias` call each, 1 = one `aliases` call, 2 = `alias` for the first and
+    /// `aliases` for the rest, 3 = two `aliases` calls
+    #[serde(default)]
+    pub alias_style: u8,
 }
 
 pub struct Possible;
@@ -765,8 +769,22 @@ fn check_pv(case: &PvCase, ctx: &mut Ctx) -> Verdict {
         .iter()
         .map(|(n, als)| {
             let mut p = clap::builder::PossibleValue::new(n.clone());
-            for a in als {
-                p = p.alias(a.clone());
+            match case.alias_style {
+                1 => p = p.aliases(als.clone()),
+                2 if !als.is_empty() => {
+                    p = p.alias(als[0].clone());
+                    p = p.aliases(als[1..].to_vec());
+                }
+                3 => {
+                    let h = als.len() / 2;
+                    p = p.aliases(als[..h].to_vec());
+                    p = p.aliases(als[h..].to_vec());
+                }
+                _ => {
+                    for a in als {
+                        p = p.alias(a.clone());
+                    }
+                }
             }
             p
         })
@@ -834,7 +852,7 @@ impl Property for Possible {
     }
     fn budget(&self, tier: Tier) -> Budget {
         Budget {
-            cases: tier.pick(150_000, 6_000_000),
+            cases: tier.pick(750_000, 6_000_000),
             tape_len: 200,
         }
     }
@@ -891,6 +909,7 @@ impl Property for Possible {
             values,
             ignore_case,
             input,
+            alias_style: t.choose(4) as u8,
         }
     }
     fn run(&self, case: &PvCase, ctx: &mut Ctx) -> Verdict {
@@ -1128,7 +1147,7 @@ impl Property for Histories {
     }
     fn budget(&self, tier: Tier) -> Budget {
         Budget {
-            cases: tier.pick(150_000, 6_000_000),
+            cases: tier.pick(750_000, 6_000_000),
             tape_len: 400,
         }
     }
